@@ -320,3 +320,207 @@ def heat_system(mesh, T, Tprev=None):
             fixed[i] = prob.circprops[c].get("V", 0.0)
     K = sp.csr_matrix((vals, (rows, cols)), shape=(n, n))
     return K, f, fixed, cond
+
+
+# ------------------------------------------------------------------------------------------------ magnetics (planar)
+def lam_mu(mat):
+    """effective relative permeabilities (mu1 along x, mu2 along y) of a linear, possibly laminated material"""
+    t = mat.get("LamFill", 1.0)
+    lt = mat.get("LamType", 0)
+    mx, my = mat.get("Mu_x", 1.0), mat.get("Mu_y", 1.0)
+    if lt == 0:
+        return mx * t + (1 - t), my * t + (1 - t)
+    if lt == 1:
+        return mx * t + (1 - t), mx / (t + mx * (1 - t))
+    if lt == 2:
+        return my / (t + my * (1 - t)), my * t + (1 - t)
+    return 1.0, 1.0
+
+
+def label_sigma(prob, l):
+    """bulk conductivity (S/m) of the region of label l: a wound region (|turns| > 1 in a circuit) is stranded and
+    carries no bulk eddy / conduction current"""
+    lab = prob.labels[l]
+    if lab["circ"] >= 0 and abs(lab["turns"]) > 1:
+        return 0.0
+    return prob.blockprops[lab["block"]].get("Sigma", 0.0) * 1e6
+
+
+def circuit_current_densities(mesh):
+    """additional current density (A/m^2) per label from the circuit properties: a series circuit drives every one
+    of its labels with I*turns; a parallel circuit shares I over all its labels; the current of a region spreads
+    uniformly if none of it conducts, otherwise proportionally to the conductivity"""
+    prob = mesh.prob
+    nl = len(prob.labels)
+    area = np.zeros(nl); cond_area = np.zeros(nl); jb = np.zeros(nl)
+    for k in range(len(mesh.els)):
+        l = mesh.lbl[k]
+        mat = prob.blockprops[prob.labels[l]["block"]]
+        area[l] += mesh.area[k]
+        cond_area[l] += mesh.area[k] * label_sigma(prob, l)
+        jb[l] += mesh.area[k] * mat.get("J_re", 0.0) * 1e6
+    J = {}
+    for c, cp in enumerate(prob.circprops):
+        labs = [l for l in range(nl) if prob.labels[l]["circ"] == c]
+        if not labs:
+            continue
+        groups = [[l] for l in labs] if cp.get("type", 1) == 1 else [labs]
+        for g in groups:
+            turns = prob.labels[g[0]]["turns"] if cp.get("type", 1) == 1 else 1
+            I = cp.get("I_re", 0.0) * turns
+            A = sum(area[l] for l in g); CA = sum(cond_area[l] for l in g); JB = sum(jb[l] for l in g)
+            for l in g:
+                sig = label_sigma(prob, l)
+                if CA == 0:
+                    J[l] = ("J", (I - JB) / A if A else 0.0)
+                else:
+                    J[l] = ("sigma", sig * (I - JB) / CA)
+    return J
+
+
+def magnetostatic_system(mesh):
+    prob = mesh.prob
+    n = mesh.n
+    rows, cols, vals = [], [], []
+    f = np.zeros(n)
+    Jc = circuit_current_densities(mesh)
+    for k in range(len(mesh.els)):
+        l = mesh.lbl[k]
+        lab = prob.labels[l]
+        mat = prob.blockprops[lab["block"]]
+        mu1, mu2 = lam_mu(mat)
+        p, q, a = mesh.grads(k)
+        Ke = (np.outer(p, p) / (MU0 * mu2) + np.outer(q, q) / (MU0 * mu1)) / (4 * a)
+        idx = mesh.els[k]
+        J = mat.get("J_re", 0.0) * 1e6 + (Jc[l][1] if l in Jc else 0.0)
+        for i in range(3):
+            f[idx[i]] += J * a / 3
+            for j in range(3):
+                rows.append(idx[i]); cols.append(idx[j]); vals.append(Ke[i, j])
+        hc = mat.get("H_c", 0.0)
+        if hc != 0:
+            th = math.radians(lab.get("magdir", 0.0))
+            for s in range(3):
+                i, j = idx[s], idx[(s + 1) % 3]
+                dx, dy = mesh.xy[j] - mesh.xy[i]
+                v = 0.5 * hc * (math.cos(th) * dx + math.sin(th) * dy)
+                f[i] -= v
+                f[j] -= v
+    for (k, s), ent in sorted(mesh.side_ent.items()):
+        e = mesh.ents.get(ent)
+        if e["bc"] < 0:
+            continue
+        bp = prob.bdryprops[e["bc"]]
+        if bp["type"] != 2:
+            continue
+        i, j = mesh.els[k][s], mesh.els[k][(s + 1) % 3]
+        l = math.hypot(*(mesh.xy[i] - mesh.xy[j]))
+        c0, c1 = bp.get("c0", 0.0), bp.get("c1", 0.0)
+        for (a_, b_, w) in ((i, i, 2), (j, j, 2), (i, j, 1), (j, i, 1)):
+            rows.append(a_); cols.append(b_); vals.append(l * c0 * w / 6)
+        f[i] -= l * c1 / 2
+        f[j] -= l * c1 / 2
+    fixed = {}
+    for i in range(n):
+        x, y = mesh.xy_units[i]
+        for ent in mesh.node_ents[i]:
+            e = mesh.ents.get(ent)
+            if ent[0] == "pt" and e["bc"] >= 0:
+                pp = prob.pointprops[e["bc"]]
+                if pp.get("I_re", 0.0) == 0 and pp.get("I_im", 0.0) == 0:
+                    fixed[i] = pp.get("A_re", 0.0)
+                else:
+                    f[i] += pp.get("I_re", 0.0)
+        for ent in mesh.node_ents[i]:
+            e = mesh.ents.get(ent)
+            if ent[0] != "pt" and e["bc"] >= 0 and prob.bdryprops[e["bc"]]["type"] == 0:
+                bp = prob.bdryprops[e["bc"]]
+                if prob.coords == "cartesian":
+                    a = bp.get("A_0", 0.0) + x * bp.get("A_1", 0.0) + y * bp.get("A_2", 0.0)
+                else:
+                    r = math.hypot(x, y)
+                    t = 0.0 if (x == 0 and y == 0) else math.degrees(math.atan2(y, x))
+                    a = bp.get("A_0", 0.0) + r * bp.get("A_1", 0.0) + t * bp.get("A_2", 0.0)
+                fixed[i] = a * math.cos(math.radians(bp.get("Phi", 0.0)))
+    K = sp.csr_matrix((vals, (rows, cols)), shape=(n, n))
+    return K, f, fixed, Jc
+
+
+def harmonic_system(mesh, records):
+    """time-harmonic planar magnetics, linear unlaminated materials: (K + j w sigma M) A = J_block + J_applied with the
+    per-label applied current density taken from the records written with the solution (case 0: -sigma*dV, case 1: J)"""
+    prob = mesh.prob
+    n = mesh.n
+    w = 2 * math.pi * prob.freq
+    rows, cols, vals = [], [], []
+    f = np.zeros(n, dtype=complex)
+    mass = np.array([[2, 1, 1], [1, 2, 1], [1, 1, 2]]) / 12.0
+    for k in range(len(mesh.els)):
+        l = mesh.lbl[k]
+        lab = prob.labels[l]
+        mat = prob.blockprops[lab["block"]]
+        mu1, mu2 = lam_mu(mat)
+        sig = label_sigma(prob, l)
+        p, q, a = mesh.grads(k)
+        Ke = (np.outer(p, p) / (MU0 * mu2) + np.outer(q, q) / (MU0 * mu1)) / (4 * a) + 1j * w * sig * a * mass
+        idx = mesh.els[k]
+        case, val = records[l]
+        Jadd = (-sig * val) if case == 0 else val * 1e6
+        J = (mat.get("J_re", 0.0) + 1j * mat.get("J_im", 0.0)) * 1e6 + Jadd
+        for i in range(3):
+            f[idx[i]] += J * a / 3
+            for j in range(3):
+                rows.append(idx[i]); cols.append(idx[j]); vals.append(Ke[i, j])
+    for (k, s), ent in sorted(mesh.side_ent.items()):
+        e = mesh.ents.get(ent)
+        if e["bc"] < 0:
+            continue
+        bp = prob.bdryprops[e["bc"]]
+        if bp["type"] != 2:
+            continue
+        i, j = mesh.els[k][s], mesh.els[k][(s + 1) % 3]
+        l = math.hypot(*(mesh.xy[i] - mesh.xy[j]))
+        c0 = bp.get("c0", 0.0) + 1j * bp.get("c0i", 0.0)
+        c1 = bp.get("c1", 0.0) + 1j * bp.get("c1i", 0.0)
+        for (a_, b_, wt) in ((i, i, 2), (j, j, 2), (i, j, 1), (j, i, 1)):
+            rows.append(a_); cols.append(b_); vals.append(l * c0 * wt / 6)
+        f[i] -= l * c1 / 2
+        f[j] -= l * c1 / 2
+    fixed = {}
+    for i in range(n):
+        x, y = mesh.xy_units[i]
+        for ent in mesh.node_ents[i]:
+            e = mesh.ents.get(ent)
+            if ent[0] == "pt" and e["bc"] >= 0:
+                pp = prob.pointprops[e["bc"]]
+                if pp.get("I_re", 0.0) == 0 and pp.get("I_im", 0.0) == 0:
+                    fixed[i] = pp.get("A_re", 0.0) + 1j * pp.get("A_im", 0.0)
+                else:
+                    f[i] += pp.get("I_re", 0.0) + 1j * pp.get("I_im", 0.0)
+        for ent in mesh.node_ents[i]:
+            e = mesh.ents.get(ent)
+            if ent[0] != "pt" and e["bc"] >= 0 and prob.bdryprops[e["bc"]]["type"] == 0:
+                bp = prob.bdryprops[e["bc"]]
+                a = bp.get("A_0", 0.0) + x * bp.get("A_1", 0.0) + y * bp.get("A_2", 0.0)
+                ph = math.radians(bp.get("Phi", 0.0))
+                fixed[i] = a * (math.cos(ph) + 1j * math.sin(ph))
+    K = sp.csr_matrix((vals, (rows, cols)), shape=(n, n))
+    return K, f, fixed
+
+
+def circuit_totals(mesh, records, A):
+    """total current (A) carried by each label region in a harmonic solution: int (J_block + J_applied - j w sigma A)"""
+    prob = mesh.prob
+    w = 2 * math.pi * prob.freq
+    tot = {}
+    for k in range(len(mesh.els)):
+        l = mesh.lbl[k]
+        mat = prob.blockprops[prob.labels[l]["block"]]
+        sig = label_sigma(prob, l)
+        case, val = records[l]
+        Jadd = (-sig * val) if case == 0 else val * 1e6
+        J = (mat.get("J_re", 0.0) + 1j * mat.get("J_im", 0.0)) * 1e6 + Jadd
+        a = mesh.area[k]
+        Aavg = A[mesh.els[k]].mean()
+        tot[l] = tot.get(l, 0) + (J - 1j * w * sig * Aavg) * a
+    return tot
